@@ -753,7 +753,7 @@ impl IovecFamily {
     /// set is compared and the containment oracle runs.
     fn ownership_cases(&self) -> Vec<Vec<String>> {
         let mut cases: Vec<Vec<String>> = Vec::new();
-        for count in [40usize, 200] {
+        for count in [40usize, 200, 300] {
             let src: Vec<u8> = (0..count + 4).map(|k| (k as u8).wrapping_mul(7).wrapping_add(3)).collect();
             let read = format!("read_n a0 {} 4 {} d{}", count, to_hex(&src), count);
             // derive: (ops on s0, handles of the pieces alive afterwards)
@@ -770,7 +770,7 @@ impl IovecFamily {
             for (ops, pieces) in &derivations {
                 for keep in pieces {
                     for arena_first in [true, false] {
-                        for sink in ["keep", "push", "push_then_consume"] {
+                        for sink in ["keep", "push", "push_then_consume", "push_clone_drop", "push_take_drop"] {
                             let mut c: Vec<String> = vec!["new".into(), "new_arena".into(), read.clone()];
                             c.extend(ops.iter().cloned());
                             if arena_first {
@@ -787,6 +787,23 @@ impl IovecFamily {
                             match sink {
                                 "keep" => {}
                                 "push" => c.push(format!("push_aslice v0 s{}", keep)),
+                                // the anchored slice is the LAST push before the snapshot: its keep-alive
+                                // anchor still has count 0 when the iovec is cloned / taken, and the copy
+                                // must stay readable after the original is gone
+                                "push_clone_drop" => {
+                                    c.push(format!("push_aslice v0 s{}", keep));
+                                    c.push("clone v0".into());
+                                    c.push("drop v0".into());
+                                    c.push("read v1 1000".into());
+                                }
+                                "push_take_drop" => {
+                                    c.push(format!("push_aslice v0 s{}", keep));
+                                    c.push("take v0".into());
+                                    c.push("drop v0".into());
+                                    c.push("clone v1".into());
+                                    c.push("drop v1".into());
+                                    c.push("read v2 1000".into());
+                                }
                                 _ => {
                                     c.push("push_copy v0 aabb".into());
                                     c.push(format!("push_aslice v0 s{}", keep));
